@@ -13,6 +13,18 @@ def answer (line : String) : String :=
     (match Expr.ofSExp e with
      | some x => showRes (Expr.renumber x)
      | none => "(parse-error)")
+  | some (.list [.atom "rct", e]) =>
+    (match Expr.ofSExp e with
+     | some x => showRes (Expr.rct x)
+     | none => "(parse-error)")
+  | some (.list [.atom "rctOld", e]) =>
+    (match Expr.ofSExp e with
+     | some x => showRes (Expr.rctOld x)
+     | none => "(parse-error)")
+  | some (.list [.atom "expand", e]) =>
+    (match Expr.ofSExp e with
+     | some x => showRes (Expr.expand x)
+     | none => "(parse-error)")
   | _ => "(bad-request)"
 
 partial def loop (h : IO.FS.Stream) : IO Unit := do
